@@ -21,7 +21,7 @@ import ast
 from ..srcmodel import AnalysisError, U, calls_in, walk_shallow, target_names
 from ..symexpr import SymEval, Atoms, Alg, Rat, const, sym
 from ..normalise import single_exit
-from ..engines.blockeval import BlockEval, T
+from ..engines.blockeval import BlockEval, T, clone
 import copy
 
 CDP = 'mechanisms/cdp2adp.py'
@@ -59,7 +59,7 @@ class Search:
 
     def __init__(self, fi):
         self.fi = fi
-        stmts, _ = single_exit(copy.deepcopy(fi.body), '__ret__')
+        stmts, _ = single_exit(clone(fi.body), '__ret__')
         be = BlockEval(fi.qualname, loop_ok=lambda s: True)
         be.run(stmts)
         if len(be.loops_done) != 1:
@@ -117,7 +117,7 @@ class Search:
             if after_loop and isinstance(n, ast.Name) and n.id in self.mid_vars:
                 return ast.Name(id=self.MID, ctx=ast.Load())
             return None
-        return Replace(fn).visit(copy.deepcopy(e))
+        return Replace(fn).visit(clone(e))
 
     def where(self, var):
         """a statement to anchor the report at: first assignment of `var` in the source"""
